@@ -14,7 +14,9 @@ import (
 // ---------- C13: Expression() is the creation string byte for byte, whatever surrounds or fills the text ----------
 
 func c13ExpressionText(r *Run) {
-	cores := []string{"A == 1", "( A == 1 )", "A==1", "not A == 1", "B matches `^a`", "any L as x { x == a }", "A   ==\t1", "B == \"a b\"", "B == ` a `", "A == 1 and\nB == a", "\"/A\" == 1"}
+	cores := []string{"A == 1", "( A == 1 )", "A==1", "not A == 1", "B matches `^a`", "any L as x { x == a }", "A   ==\t1", "B == \"a b\"", "B == ` a `", "A == 1 and\nB == a", "\"/A\" == 1",
+		// not valid UTF-8: refused as the library stands; whatever accepts them must hand the bytes back unchanged
+		"B == \"caf\xe9\"", "B matches `\xff`", "B == `a\xc3`", "\xffA == 1", "A == 1 \xfe"}
 	blanks := []string{"", " ", "  ", "\t", "\n", "\r\n", " \t\r\n ", "\n\n\n", "\r"}
 	odd := []string{"\u00a0", "\u2003", "\v", "\f", "\u0085", "\ufeff", "\x00"} // not blanks of the language: creation fails, nothing to compare
 	d := S1{A: 1, B: "a", L: []string{"a"}}
